@@ -38,13 +38,13 @@ Proof. exact (legacy_args_equiv_run s cx ps (fuel_monotone_holds s cx)). Qed.
 Corollary legacy_args_equiv_run_parse_fuel s cx ps :
   star_premises s cx ps -> reader_premises s cx ps ->
   forall a p, forallb argchar_ok a = true ->
-    new_args_loop s cx (parse_fuel s) ps a p [] <> OutOfFuel ->
-    run s false cx (parse_fuel s) (TArgs ps (map std_spec a) [] p) <> OutOfFuel ->
-    agree (run s false cx (parse_fuel s) (TArgs ps (map std_spec a) [] p))
+    new_args_loop s cx (parse_fuel s cx) ps a p [] <> OutOfFuel ->
+    run s false cx (parse_fuel s cx) (TArgs ps (map std_spec a) [] p) <> OutOfFuel ->
+    agree (run s false cx (parse_fuel s cx) (TArgs ps (map std_spec a) [] p))
           (legacy_parse_args s false cx ps a false None p).
 Proof.
   intros SP RP a p Ha H1 H2.
-  exact (legacy_args_equiv_run_all s cx ps SP RP (parse_fuel s) (parse_fuel s) a p Ha H1 H2).
+  exact (legacy_args_equiv_run_all s cx ps SP RP (parse_fuel s cx) (parse_fuel s cx) a p Ha H1 H2).
 Qed.
 
 (** why [star_premises] stays a premise: it is NOT true of every context — a
